@@ -111,6 +111,7 @@ type Node struct {
 	height       uint32
 	tip          H
 	tipTS        uint64
+	subActive    bool // a SubscribeForTxs call has not been answered with a notification yet (one-shot model)
 	earlierLife  bool // see Receive
 	foreignEarly bool // an unrequested transaction was handed over while no request was outstanding (E2 foreign_tx)
 	ledgerAhead  bool // the ledger got the block of the height under consensus from elsewhere; Reset not called yet
@@ -248,7 +249,7 @@ func (n *Node) build() {
 				}
 				return sc.MaxTimePerBlock
 			}),
-			dbft.WithSubscribeForTxs[H](func() { n.subscribes++ }),
+			dbft.WithSubscribeForTxs[H](func() { n.subscribes++; n.subActive = true }),
 		)
 	}
 	d, err := dbft.New[H](opts...)
@@ -576,6 +577,13 @@ func (n *Node) SupplyTx(h H) {
 }
 
 func (n *Node) NewTxNotify() {
+	if n.sc().OneShotSub {
+		// the documented single-use subscription: one notification per SubscribeForTxs call, none without
+		if !n.subActive {
+			return
+		}
+		n.subActive = false
+	}
 	n.api("OnNewTransaction", nil, func() { n.d.OnNewTransaction() })
 	n.flush()
 }
